@@ -222,6 +222,15 @@ def main():
     ck = Check("C11")
     thorough = ck.tier == "thorough"
     rng = random.Random(ck.seed)
+    mc = tlc.run("MC_ArgsLoops", "MC_ArgsLoops.cfg")
+    ck.mc(mc, "MC element loops")
+    if mc.invariant_violated:
+        ck.count("model_only_counterexamples")
+        ck.note("model-level counterexample: the element loops as transcribed violate %s" % mc.invariant_violated)
+    wit = tlc.run("MC_ArgsLoops", "MC_ArgsLoops_witness.cfg", workers=1, extra=("-continue",))
+    missing = [w for w in ("W_Excluded", "W_Preserved", "W_Raised") if "Invariant %s is violated" % w not in wit.output]
+    if missing:
+        raise MachineryError("vacuity: %s unreachable in MC_ArgsLoops" % missing)
     records, n = [], 0
     for gen_ in (container_cases, map_cases, field_cases, extra_cases):
         for c, r, rp in gen_(rng, thorough):
